@@ -7,6 +7,11 @@ import subprocess
 ROOT = os.path.dirname(os.path.dirname(os.path.abspath(__file__)))
 
 TECH = {
+    "C14": ("contracts on bytes_to_mnemonic / mnemonic_to_bytes / hmac_sha512_kdf / PBKDF2.read / from_mnemonic vs reference BIP39 + hashlib PBKDF2; exhaustive last-word and 4-letter-prefix acceptance sets; word-list invariants", "2 C14"),
+    "C15": ("contracts on the SLIP39 pipeline (rs1024, Share.parse/mnemonic, split/recover/interpolate, encrypt/decrypt) with a two-way differential against a reference SLIP39; exhaustive GF(256) tables; subset, mixed-split and 1..3-word corruption workloads", "2 C15"),
+    "C17": ("contracts on merkle_root, MerkleBlock.is_valid/proved_txs, Block.hash/target/check_pow, bits/target conversion, retarget, HeadersMessage.is_valid vs reference chain model; exhaustive trees <= 10 leaves x all match sets; proof tampering; stubbed hash at the target boundary", "2 C17"),
+    "C18": ("contracts on SipHash, murmur3, Golomb/GCS codec, CompactFilter, CFHeaders chaining and BloomFilter vs reference filters; every message tail length; committed hash-collision witnesses", "2 C18"),
+    "C19": ("contracts on the primitive wire helpers, NetworkEnvelope and every message serialize/parse vs struct-based reference layouts; every-byte corruption of sampled envelopes; truncation", "2 C19"),
     "C10": ("history monitor over signer subsets / orders / combine shapes on parse(serialize()) copies (one combined PSBT and one final tx per signer set, success iff >= m); contracts on PSBT.serialize (independent TLV reader), combine, finalize, final_tx; corrupted partial signatures must not load", "2 C10"),
     "C11": ("boundary monitor on PSBT.parse + describe_basic_multisig: sums vs ground truth, independent change oracle re-deriving every labelled change output from the wallet seeds with reference BIP32, BIP174-level tamper catalogue", "2 C11"),
     "C07": ("contracts on every non-signature OP_CODE_FUNCTIONS entry and on encode_num/decode_num vs a port of EvalScript; whole-program differential on Script.evaluate; timelock grid", "2 C07"),
